@@ -423,8 +423,9 @@ class State:
         db, do = ptr_key(dst)
         sb, so = ptr_key(src)
         if n is None:
-            self.kill_base(db)
-            return
+            # variable length: everything from the destination offset on may have been overwritten by the
+            # corresponding source bytes (extent unknown)
+            n = 1 << 40
         self._kill_range(db, do, do + n)
         self.defined.append((db, do, do + n))
         snap = {k: v for k, v in self.store.items() if k[0] == sb and so <= k[1] < so + n}
@@ -502,9 +503,10 @@ class Path:
 
 
 class Executor:
-    def __init__(self, prog, eff, inline=(), max_paths=MAX_PATHS, loop_bound=1, arith_events=False):
+    def __init__(self, prog, eff, inline=(), max_paths=MAX_PATHS, loop_bound=1, arith_events=False, snapshot_calls=()):
         self.prog, self.eff = prog, eff
         self.arith_events = arith_events
+        self.snapshot_calls = set(snapshot_calls)
         self.inline = set(inline)
         self.max_paths = max_paths
         self.loop_bound = loop_bound
@@ -822,6 +824,8 @@ class Executor:
                 else:
                     st.pure[pk] = res_t
         ev = Event("call", ins, f, actuals, res_t, len(st.facts), callee, ckind, dict(pointee=pointee), depth)
+        if callee in self.snapshot_calls:
+            ev.extra["state"] = st.clone()   # memory as the callee receives it
         st.events.append(ev)
         if ckind == "lib":
             S = self.eff.summ[callee]
